@@ -332,7 +332,8 @@ class Function:
     @classmethod
     def user_task_remove_done_callback(cls, task, callback):
         """Implement task.remove_done_callback()."""
-        cls.task2cb[task]["cb"].pop(callback, None)
+        if task in cls.task2cb:
+            cls.task2cb[task]["cb"].pop(callback, None)
 
     @classmethod
     def unique_name_used(cls, ctx, name):
@@ -551,6 +552,9 @@ class Function:
     @classmethod
     def task_add_done_callback(cls, task, ast_ctx, callback, *args, **kwargs):
         """Add a done callback to the given task."""
+        if task.done():
+            # its done callbacks have run and it has been forgotten: nothing is kept for it
+            return
         if task not in cls.task2cb:
             # (not every task pyscript runs has an entry, eg the legacy shutdown trigger runs)
             cls.task2cb[task] = {"cb": {}}
